@@ -1571,6 +1571,8 @@ fn oracles(
     let mut last_was_at_limit_blocked = false;
     let mut idle_f6: Vec<(usize, u64, bool)> = vec![];
     let mut appdropped_before_call: BTreeSet<usize> = BTreeSet::new();
+    // requests that were certainly in flight when a duplicate of their id was read
+    let mut had_dup: BTreeSet<usize> = BTreeSet::new();
     for (i, e) in ev.iter().enumerate() {
         match e {
             Ev::PollCall => {
@@ -1599,6 +1601,13 @@ fn oracles(
                     let completed_before = |q: &usize| life[q].responses.iter().any(|r| r.0 < i);
                     if yielded.iter().any(|q| life[q].id == *id && !completed_before(q)) && !dup_certain {
                         outside_quantifier = true;
+                    }
+                    if dup_certain {
+                        for q in yielded.iter() {
+                            if life[q].id == *id && !ended_set.contains(q) && !appdropped.contains(q) && !exp_possible(q, *v, &v_read) {
+                                had_dup.insert(*q);
+                            }
+                        }
                     }
                     let l = life.get_mut(seq).unwrap();
                     if dup_certain {
@@ -1923,6 +1932,10 @@ fn oracles(
                                 "abort-early",
                                 format!("handler of request seq {seq} (id {}) was aborted at {v_drop}ms without cancellation, before its deadline: read at {vr}ms, D={}ms => earliest legitimate expiry {earliest}ms", l.id, m.d.d_ms()),
                             ));
+                            if had_dup.contains(seq) {
+                                // C16: duplicates are ignored *while the connection keeps serving well-formed traffic*
+                                out.viols.push(Viol::new("C16", "duplicate-disturbed-original", format!("request seq {seq} (id {}) was in flight when a duplicate of its id arrived; its handler was then aborted at {v_drop}ms, before its own deadline (earliest legitimate expiry {earliest}ms) and without a cancellation", l.id)));
+                            }
                         } else {
                             out.count("handlers_aborted_by_expiry", 1);
                             out.nontrivial("C06");
